@@ -339,6 +339,9 @@ func Flatten(g geom.Geom) []geom.Point {
 			o = append(o, Flatten(m)...)
 		}
 	case *geom.Bounds:
+		if t.Max.X < t.Min.X || t.Max.Y < t.Min.Y {
+			break // an empty box has no corners
+		}
 		o = append(o, t.Min, geom.Point{X: t.Max.X, Y: t.Min.Y}, t.Max, geom.Point{X: t.Min.X, Y: t.Max.Y})
 	}
 	return o
@@ -542,6 +545,7 @@ type GeomOpts struct {
 	InnerKinds []int                 // kinds allowed inside collections (nil = Kinds)
 	Point      func(r *R) geom.Point // optional override for whole points
 	BigPath    float64               // probability that a path gets a BigLen length (63 .. 65537)
+	EmptyBoxes float64               // probability that a *Bounds is an empty box (the canonical one or Min beyond Max)
 }
 
 func (o *GeomOpts) pt(r *R) geom.Point {
@@ -641,6 +645,17 @@ func RandGeomKind(r *R, o *GeomOpts, k, depth int) geom.Geom {
 		return m
 	case KBounds:
 		a, b := o.pt(r), o.pt(r)
+		if o.EmptyBoxes > 0 && r.Chance(o.EmptyBoxes) {
+			// an empty box: it holds no point and has no corners
+			if r.Bool() {
+				return geom.NewBounds()
+			}
+			e := &geom.Bounds{Min: geom.Point{X: math.Max(a.X, b.X), Y: math.Min(a.Y, b.Y)}, Max: geom.Point{X: math.Min(a.X, b.X), Y: math.Max(a.Y, b.Y)}}
+			if e.Min.X > e.Max.X {
+				return e
+			}
+			return geom.NewBounds()
+		}
 		return &geom.Bounds{Min: geom.Point{X: math.Min(a.X, b.X), Y: math.Min(a.Y, b.Y)}, Max: geom.Point{X: math.Max(a.X, b.X), Y: math.Max(a.Y, b.Y)}}
 	}
 	return o.pt(r)
